@@ -302,11 +302,41 @@ pub fn check_chain(c: &ChainCase) -> CheckResult {
     pts.extend_from_slice(&c.cuts);
     pts.push(1176);
     let mut all: Seq = vec![];
-    for w in pts.windows(2) {
-        let want_len = full.window(w[0], w[1]).len();
-        let got = run_seq(&scoped(&c.cfg, w[0], w[1]), want_len, 1)?;
-        compare(&full, w[0], w[1], &got, &format!("chain link {:?}..{:?}", index_pos(w[0]), index_pos(w[1])))?;
-        all.extend(got);
+    if fp_of(&format!("{:?}", c)) % 2 == 0 {
+        // the way the multi-thread example does it: every scoped iterator is built first; here an
+        // evaluator on another flop is then started on the same thread and stays alive while the
+        // links are drained one after the other
+        let tr = Translator::new(&c.cfg);
+        let mut its: Vec<_> = pts.windows(2).map(|w| scoped(&c.cfg, w[0], w[1]).evaluator().into_iter()).collect();
+        let other_flop = {
+            let mut v: Vec<u8> = vec![];
+            let mut x = (c.cfg.flop[0] + 17) % 52;
+            while v.len() < 3 {
+                if !c.cfg.flop.contains(&x) && !v.contains(&x) {
+                    v.push(x);
+                }
+                x = (x + 5) % 52;
+            }
+            [v[0], v[1], v[2]]
+        };
+        let mut foreign = Config { flop: other_flop, ranges: vec![], scope: None }.evaluator().into_iter();
+        for _ in 0..3 {
+            std::hint::black_box(foreign.next().is_some());
+        }
+        for (k, w) in pts.windows(2).enumerate() {
+            let want_len = full.window(w[0], w[1]).len();
+            let got = drain_seq(&mut its[k], &tr, want_len, 1, &format!("chain link {:?}..{:?} (all links built first, an evaluator on another flop alive beside them)", index_pos(w[0]), index_pos(w[1])))?;
+            compare(&full, w[0], w[1], &got, &format!("chain link {:?}..{:?} (all links built first, an evaluator on another flop alive beside them)", index_pos(w[0]), index_pos(w[1])))?;
+            all.extend(got);
+            std::hint::black_box(foreign.next().is_some());
+        }
+    } else {
+        for w in pts.windows(2) {
+            let want_len = full.window(w[0], w[1]).len();
+            let got = run_seq(&scoped(&c.cfg, w[0], w[1]), want_len, 1)?;
+            compare(&full, w[0], w[1], &got, &format!("chain link {:?}..{:?}", index_pos(w[0]), index_pos(w[1])))?;
+            all.extend(got);
+        }
     }
     compare(&full, 0, 1176, &all, "concatenated chain")?;
     vensure!(all.len() == full.seq.len(), "chain-count", "chain yields {} showdowns, the full run {}", all.len(), full.seq.len());
@@ -409,7 +439,7 @@ pub fn run(ctx: &mut Ctx) {
         assert_eq!(pos_index(p.0, p.1) as usize, i);
         assert_eq!(index_pos(i as u16), *p);
     }
-    ctx.rule = "positions = the 1176 (turn<river) deck-index pairs + terminal. (1) exhaustive: for fixed configurations, every ordered pair from <= to of the 1177 positions (693,253 windows each; quick 2 configurations, thorough 6) - the scoped run must equal the unscoped run's window position by position (multiset inside a position), be exhausted afterwards (3 more next() calls). (2) proptest histories: small generated configurations (pool/free ranges, players holding the first/last deck cards so head rows / the tail are empty, no players), 0-3 scope() calls before iteration (last wins), windows biased to row starts/ends/terminal/empty/one-position, next() after exhaustion (0-3 calls mostly, up to 20,000). (3) proptest chains: 0-63 sorted cut points (duplicates = empty scopes), every link compared and the concatenation compared with the full run. (4) short windows compared directly with the enumeration model restricted to the window (independent of the unscoped run); (5) windows over 3 ranges of 300-1326 combos (or 4 of up to 160) (more than 2^32 odometer slots, cannot be drained): the first showdowns must lie inside the window, in position order, start at the first position with a legal deal and be as many as the window provably holds. Non-trivial = window contains a row rollover, has an empty position at an edge, is empty or ends at the terminal (chains: >= 1 cut); distinct by (configuration, window/cuts).".into();
+    ctx.rule = "positions = the 1176 (turn<river) deck-index pairs + terminal. (1) exhaustive: for fixed configurations, every ordered pair from <= to of the 1177 positions (693,253 windows each; quick 2 configurations, thorough 6) - the scoped run must equal the unscoped run's window position by position (multiset inside a position), be exhausted afterwards (3 more next() calls). (2) proptest histories: small generated configurations (pool/free ranges, players holding the first/last deck cards so head rows / the tail are empty, no players), 0-3 scope() calls before iteration (last wins), windows biased to row starts/ends/terminal/empty/one-position, next() after exhaustion (0-3 calls mostly, up to 20,000). (3) proptest chains: 0-63 sorted cut points (duplicates = empty scopes), every link compared and the concatenation compared with the full run; in half of the chains every link's iterator is built before the first is drained and an evaluator on another flop is alive on the thread meanwhile (the multi-thread example builds its scopes up front). (4) short windows compared directly with the enumeration model restricted to the window (independent of the unscoped run); (5) windows over 3 ranges of 300-1326 combos (or 4 of up to 160) (more than 2^32 odometer slots, cannot be drained): the first showdowns must lie inside the window, in position order, start at the first position with a legal deal and be as many as the window provably holds. Non-trivial = window contains a row rollover, has an empty position at an edge, is empty or ends at the terminal (chains: >= 1 cut); distinct by (configuration, window/cuts).".into();
     ctx.assumptions = vec![
         "only valid positions (t<r<=48 or (48,49)) with from <= to are generated; aliases like (47,49) are outside the statement".into(),
         "showdowns are compared through a 64-bit fingerprint of board, hole cards, power indexes, winner flags, winner_len and probability bits".into(),
